@@ -176,7 +176,7 @@ def sigCovered (ic : Option Ctx) (reg : List Ctx) (toks : List Tok) (sigs schain
   | some decls, some ch =>
     let built := decls.length == reg.length &&
       (decls.zip reg).all fun (d, c) => match d.ctx? with | .ok c' => decide (c' = c) | .error _ => false
-    let good := decls.all fun d => d.params.all (fun p => pyIdent p.name && !allUnderscores p.name) && !isFlag d.name
+    let good := decls.all fun d => d.params.all (fun p => pyIdent p.name && decide (dashedName p.name ≠ [])) && !isFlag d.name
     built && good && sigChainOKb ic decls ch && noSentinelB toks && decide (renderChain decls ch = toks)
   | _, _ => false
 
